@@ -472,6 +472,10 @@ class World:
         return f'{self.modname}.{t}' if t in self.desc['tasks'] else t.replace('<mod>', self.modname)
 
     def config_dir(self, vid):
+        if self.desc.get('_shared_cfg'):
+            # all variants live at the SAME paths: building another variant edits the config files in place (per process:
+            # forked workers must not rewrite each other's files)
+            return os.path.join(self.root_dir, 'configs', f'shared_{os.getpid()}')
         return os.path.join(self.root_dir, 'configs', str(vid))
 
     def _config_payload(self, d, cid):
